@@ -4,7 +4,7 @@
 //! `verif-sched <label>` on stderr and hold a window open for a configured time; the
 //! driver delivers the next command when it *sees* the label (or the bestmove line), i.e.
 //! inside the window.  Oracle: every go => exactly one legal bestmove; after stop the
-//! bestmove arrives within 1 s (+ injected sleeps); every isready => readyok; nothing a
+//! bestmove arrives within 2 s (+ injected sleeps); every isready => readyok; nothing a
 //! conformant GUI sends is refused.
 
 use super::c09::position_command;
@@ -206,7 +206,7 @@ pub fn run_sched(ctx: &Ctx, s: &Sched, rep: &mut Report) -> Result<(), Violation
                 eng.send("isready");
                 order.push("isready".into());
                 // the bestmove may overtake the readyok: take note of it while waiting
-                let until = std::time::Instant::now() + Duration::from_secs(2) + slack;
+                let until = std::time::Instant::now() + Duration::from_secs(3) + slack;
                 loop {
                     let left = until.saturating_duration_since(std::time::Instant::now());
                     let ev = eng.wait_for(left, |e| (e.stream == Stream::Out && e.line.trim() == "readyok") || is_best(e) || e.eof);
@@ -219,7 +219,7 @@ pub fn run_sched(ctx: &Ctx, s: &Sched, rep: &mut Report) -> Result<(), Violation
                         }
                         Some(e) if !e.eof => break,
                         _ => {
-                            return Err(fail("readyok", format!("readyok/missing/{trig_class}"), format!("round {}: isready sent at {} was not answered within 2 s", ri + 1, trig_class), &eng));
+                            return Err(fail("readyok", format!("readyok/missing/{trig_class}"), format!("round {}: isready sent at {} was not answered within 3 s", ri + 1, trig_class), &eng));
                         }
                     }
                 }
@@ -247,13 +247,13 @@ pub fn run_sched(ctx: &Ctx, s: &Sched, rep: &mut Report) -> Result<(), Violation
                 order.push("stop".into());
             }
             let dl = match (stop_sent_at, self_ending) {
-                (Some(_), _) if !self_ending => Duration::from_secs(1) + slack,
-                (Some(_), _) => Duration::from_secs(1) + slack, // a stop ends any running search promptly
+                (Some(_), _) if !self_ending => Duration::from_secs(2) + slack,
+                (Some(_), _) => Duration::from_secs(2) + slack, // a stop ends any running search promptly
                 (None, _) => {
                     if r.go.contains("movetime") {
-                        Duration::from_millis(300 + 2000) + slack
+                        Duration::from_millis(300 + 3000) + slack
                     } else if r.go.contains("wtime") {
-                        Duration::from_millis(4000 + 2000) + slack
+                        Duration::from_millis(4000 + 3000) + slack
                     } else {
                         // nodes <= 40000 / depth 3: sized to finish well under a second
                         Duration::from_secs(20) + slack
@@ -324,7 +324,7 @@ pub fn run_sched(ctx: &Ctx, s: &Sched, rep: &mut Report) -> Result<(), Violation
     if optional_best == 0 && eng.stderr_lines().iter().any(|e| e.line.contains("already running")) {
         return Err(fail("not-dropped", "not-dropped/go-refused".into(), "the engine refused a go ('Search is already running') although every go was sent after the previous bestmove".into(), &eng));
     }
-    if !eng.ready(Duration::from_secs(2) + slack) {
+    if !eng.ready(Duration::from_secs(3) + slack) {
         return Err(fail("readyok", "readyok/missing/end".into(), "no readyok at the end of the schedule".into(), &eng));
     }
     eng.settle(Duration::from_millis(20));
@@ -455,7 +455,7 @@ pub fn replay(ctx: &Ctx, case: &Value) -> Report {
 }
 
 pub const LEVEL: &str = "exploration";
-pub const RULE: &str = "schedules against the real engine binary built with the cfg(rce_verif) schedule points: one labelled point (search:enter, search:armed, search:iter1, search:pre_best, search:post_best, uci:spawned) holds its window open for 50/150/300 ms, all points are traced; 1..3 rounds of (position, go {infinite | movetime 300 | nodes N | depth 3 | clocks}, trigger {when a label is seen | when the bestmove is seen | plain delay 0/5/50 ms | none}, action {stop | isready | position | none}); the GUI side stays protocol-conformant (a new go only after the previous bestmove). Occasionally the first go of a round is followed by a second go while the search still runs (its own fate is not judged; the stop after it must work) and a round may search a finished game (exactly one bestmove line, content not judged). Plus 10 fixed schedules for the interleavings the statement names. Oracle: every go => exactly one bestmove, legal in the position current when that go was sent; after stop the bestmove arrives within 1 s + injected sleeps; every isready => readyok within 2 s + sleeps; no go of a conformant script is refused. Non-trivial = the realised trace shows a command sent directly after the forced window's label (i.e. inside the window); distinct by realised order of labels, commands and bestmoves.";
+pub const RULE: &str = "schedules against the real engine binary built with the cfg(rce_verif) schedule points: one labelled point (search:enter, search:armed, search:iter1, search:pre_best, search:post_best, uci:spawned) holds its window open for 50/150/300 ms, all points are traced; 1..3 rounds of (position, go {infinite | movetime 300 | nodes N | depth 3 | clocks}, trigger {when a label is seen | when the bestmove is seen | plain delay 0/5/50 ms | none}, action {stop | isready | position | none}); the GUI side stays protocol-conformant (a new go only after the previous bestmove). Occasionally the first go of a round is followed by a second go while the search still runs (its own fate is not judged; the stop after it must work) and a round may search a finished game (exactly one bestmove line, content not judged). Plus 10 fixed schedules for the interleavings the statement names. Oracle: every go => exactly one bestmove, legal in the position current when that go was sent; after stop the bestmove arrives within 2 s + injected sleeps; every isready => readyok within 3 s + sleeps; no go of a conformant script is refused. Non-trivial = the realised trace shows a command sent directly after the forced window's label (i.e. inside the window); distinct by realised order of labels, commands and bestmoves.";
 pub const ASSUMPTIONS: &[&str] = &[
     "the labelled schedule points are the events the property names; orders that need a window at an unlabelled point are not reached",
     "all deadlines include the injected sleeps and a missing answer is a failure under any timing, so forcing a window cannot create a false alarm",
